@@ -1,5 +1,6 @@
 """C03 — priorities: the highest-priority writer wins, the latest among equals; metadata combined alike."""
 from props.mergefam import *
+import random
 
 KEYS = ['a', 'b', 'c']
 
@@ -94,15 +95,70 @@ class C03(MergeFamProp):
             D(M({'a': M({'b': S(1)})}, kw={'prio': -1}), M({'a': M({'b': S(1)})}), M({'a': M({'b': S(2)})}, kw={'prio': -1})),
         ]
 
+    def gen_fn_case(self, rng):
+        """(fn) one entry written by 2-5 stages, first as a function node, then as function nodes or as plain strings naming a target
+        (the same or another one), each with its own priority tag / metadata: the rule is the same - the target and the priority
+        of the highest-priority writer survive, the latest among equals (seeded change S5-C03: a same-name string never handed its
+        priority over)"""
+        wrap = rng.choice([[], [], ['n']])
+        writers = []
+        for i in range(rng.randint(2, 5)):
+            kw = gen_tagkw(rng, 0.6)
+            tgt = rng.choice(['rec.f', 'rec.g'])
+            if i == 0 or rng.random() < 0.5:
+                node = M([(a, S(rng.randrange(9))) for a in rng.sample(['a', 'b', 'p'], rng.choice([0, 1, 2]))], tag={'k': rng.choice(['call', 'bind']), 'f': tgt}, kw=kw)
+            else:
+                node = S(tgt, kw=kw)
+            writers.append([tgt, kw.get('prio') or 0, {k: sc_py(v) for k, v in kw.get('md', [])}])
+            writers[-1].append(node)
+        docs = [{'raw': G.nest(wrap + ['r'], w[3])} for w in writers]
+        return {'docs': docs, 'style': ['flow', 0, 0], 'kind': 'fn', 'fnpath': wrap + ['r'], 'writers': [w[:3] for w in writers]}
+
+    def oracle_fn(self, case, io):
+        if len(case['docs']) != len(case['writers']):
+            return None
+        tree = io['tree']
+        if 'ok' not in tree or tree['ok'] is None:
+            return f'function nodes and target names must merge, got {json.dumps(tree)[:160]}'
+        n = tree['ok']
+        for k in case['fnpath']:
+            n = next((c for kk, c in n.get('c', []) if sc_py(kk) == k), None) if n else None
+        if n is None:
+            return f'nothing at {case["fnpath"]} after merging'
+        tgt, pr, md = case['writers'][0]
+        md = dict(md)
+        for t, p, m in case['writers'][1:]:
+            if pr > p:
+                md = {**m, **md}
+            else:
+                tgt, pr, md = t, p, {**md, **m}
+        if n.get('k') not in ('call', 'bind') or n.get('v') != tgt:
+            return f'entry {case["fnpath"]}: expected the target {tgt!r} of the highest-priority writer (latest among equals), got {n.get("k")} {n.get("v")!r}'
+        if n['f']['ePrio'] != pr:
+            return f'entry {case["fnpath"]}: surviving priority {n["f"]["ePrio"]} != {pr}'
+        gmd = {k: sc_py(x) for k, x in n['f']['md']}
+        if gmd != md:
+            return f'entry {case["fnpath"]}: metadata {gmd} != {md} (union of keys, winner overrides)'
+        return None
+
+    def shrink(self, case):
+        if case.get('kind') == 'fn':
+            ds, ws = case['docs'], case['writers']
+            for i in range(1, len(ds)):
+                yield dict(case, docs=ds[:i] + ds[i + 1:], writers=ws[:i] + ws[i + 1:])
+            return
+        yield from super().shrink(case)
+
     def gen_cases(self, rng, n, tier):
         out = []
+        r2 = random.Random(rng.random())
         for _ in range(n):
             sk = {k: skeleton(rng, 1) for k in rng.sample(KEYS, rng.randint(1, 3))}
             ctr, written = [0], {}
             docs = [{'raw': gen_stage(rng, sk, ctr, 0.3, written=written)} for _ in range(rng.randint(2, 6))]
             st = self.STYLES[rng.randrange(len(self.STYLES))]
             out.append({'docs': docs, 'style': list(st)})
-        return out
+        return out + [self.gen_fn_case(r2) for _ in range(max(4, n // 6))]
 
     def expected(self, case):
         best = {}
@@ -119,6 +175,8 @@ class C03(MergeFamProp):
         return best
 
     def oracle(self, case, io, ans):
+        if case.get('kind') == 'fn':
+            return self.oracle_fn(case, io)
         tree = io['tree']
         if 'ok' not in tree or tree['ok'] is None:
             return f'shape-compatible mapping documents must merge, got {json.dumps(tree)[:160]}'
